@@ -1,8 +1,12 @@
 /-
   C14 — serialization produces the documented S-expression shapes.
   (Acceptance and rejection clauses and the typed round trip: LexprModel/Proofs/SerdeRT.lean.)
+  Fully proved in LexprModel/Proofs/SerdeRT.lean (imported here): `C14_shape_seq`, `C14_shape_tuple`,
+  `C14_shape_struct`, `C14_shape_option`, `C14_shape_unit_variant`, `C14_shape_int`, and the acceptance
+  clause: `C14_accept_vector_for_seq`, `C14_accept_list_for_tuple(_variant)`, `C14_reject_improper_seq`,
+  `C14_reject_improper_tuple`.
 -/
-import LexprModel.Serde
+import LexprModel.Proofs.SerdeRT
 namespace Lexpr
 namespace Serde
 
